@@ -222,3 +222,25 @@ func TestF11(t *testing.T) {
 		}
 	})
 }
+
+type f12In struct {
+	dig.In
+	G []*A `group:"g"`
+}
+
+type f12Out struct {
+	dig.Out
+	V [][]*A `group:"g,flatten"`
+}
+
+func TestF12(t *testing.T) {
+	c := dig.New()
+	c.Provide(func() *A { return &A{1} }, dig.Group("g"))
+	err := c.Decorate(func(in f12In) f12Out { return f12Out{V: [][]*A{in.G}} })
+	noPanic(t, func() {
+		err2 := c.Invoke(func(in f12In) {})
+		if err == nil && err2 != nil {
+			t.Fatalf("decorator accepted, then Invoke failed: %v", err2)
+		}
+	})
+}
